@@ -33,6 +33,27 @@ def main(tier, seed):
     profcheck.run_scenarios(rep, "captureorder", scenarios.capture_order_scenarios(), bins, PROP)
     # which closures outlive the capturing scope (any subset, captured in any order): output and the surviving objects
     profcheck.run_scenarios(rep, "retention", scenarios.closure_retention_scenarios(), bins, PROP)
+    # a function capturing as many variables as the encoding allows (255 / 256 / 257, through two enclosing levels and relayed by an
+    # intermediate function): each closure reads and writes ITS variable; one more than the limit is a compile error, never an alias
+    import limits
+    lim = [c for c in limits.build(bins[0][1], tier) if "captured" in c["name"]]
+    for bname, binary in bins:
+        for c, r in zip(lim, vlib.Pool(binary, "run", timeout=180).map([{"id": i, "main": c["src"], "gc": "default", "stack_mb": 64} for i, c in enumerate(lim)])):
+            if "runs" not in r:
+                rep.violation("program '%s' crashed the host (%s build): %r" % (c["name"], bname, {k: r[k] for k in r if k != "events"}), {"src": c["src"][:3000]})
+                continue
+            run = r["runs"][0]
+            if (not run["ok"]) and run.get("kind") == "CompileError":
+                if c["encodable"]:
+                    rep.violation("program '%s' is within the limits but was rejected (%s build): %r" % (c["name"], bname, run.get("messages")), {"src": c["src"][:3000]})
+                continue
+            if not c["encodable"]:
+                rep.violation("program '%s' exceeds the capture limit but was accepted (%s build; output %r)" % (c["name"], bname, run.get("out")),
+                              {"src": c["src"][:3000], "run": run})
+            elif vlib.run_output_lines(run) != c["expect"]:
+                rep.violation("program '%s' (%s build) printed %r instead of %r" % (c["name"], bname, vlib.run_output_lines(run)[:6], c["expect"][:6]),
+                              {"src": c["src"][:3000], "run": run})
+    rep.coverage["capture_limit_programs"] = len(lim)
     rep.coverage["exhaustive"] = True
     rep.coverage["rule"] = ("programs over <= 2 variable names and 2 function names with blocks, functions, lambdas reading / writing a captured "
                             "variable, calls after scope exit, loops (per-iteration variables, the shared loop variable), shadowing; name "
